@@ -59,6 +59,26 @@ func restoreTargets(real, orig *node) {
 	}
 }
 
+func hasReadlinkFault(n *node) bool {
+	if n.kind == 'l' && n.target == readlinkFailTarget {
+		return true
+	}
+	for _, e := range n.entries {
+		if hasReadlinkFault(e) {
+			return true
+		}
+	}
+	return false
+}
+
+func prefixSet(ds []decl) map[string]bool {
+	out := map[string]bool{}
+	for k := range properPrefixes(ds) {
+		out[k] = true
+	}
+	return out
+}
+
 func buildDir(backend string, t *node, cas blobstore.BlobAccess) (builder.BuildDirectory, func(), error) {
 	if backend == "naive" {
 		return buildNaive(t, cas)
@@ -189,7 +209,7 @@ func run(c *tcase, drv *hx.Driver) (res outcome) {
 	defer cleanup()
 	var ud builder.UploadableDirectory = bd
 	if c.faults {
-		ud = faultyDir{UploadableDirectory: bd, n: c.t1}
+		ud = faultyDir{UploadableDirectory: bd, n: c.t1, conf: &faultConfig{enterFaults: c.enterFaults, parents: prefixSet(ds)}}
 	}
 	ar := &remoteexecution.ActionResult{}
 	upErr := oh.UploadOutputs(context.Background(), ud, cas, digestFunction, nil, ar, c.force)
@@ -293,7 +313,8 @@ func shrink(c *tcase, fails func(*tcase) bool) *tcase {
 			}
 		}
 		for _, f := range []func(*tcase){
-			func(d *tcase) { d.faults = false; clearFaults(d.t1) },
+			func(d *tcase) { d.faults = false; d.enterFaults = false; clearFaults(d.t1) },
+			func(d *tcase) { d.enterFaults = false },
 			func(d *tcase) { d.force = false },
 			func(d *tcase) { d.upDirs = false },
 			func(d *tcase) { d.t0 = newDir() },
@@ -313,7 +334,7 @@ func shrink(c *tcase, fails func(*tcase) bool) *tcase {
 
 func main() {
 	o := hx.ParseFlags()
-	res := hx.NewResult("outputs", o, "one history = a Command (working directory + 0-12 output paths from a grammar with '.', '..', '//', trailing slashes, duplicates, aliases, nested and root-resolving paths, 4-8% invalid ones), an input root, and a produced tree (deep/wide/repeated identical subdirectories, symlinks, FIFOs, missing outputs, destroyed parents; 25% with CAS and ReadDir faults) run through the real NewOutputHierarchy, CreateParentDirectories and UploadOutputs on the virtual (and naive) build directory; non-trivial = accepted command with at least two declared paths resolving to the same location and at least one listed output directory whose Tree has children; distinct = hash of the op lines")
+	res := hx.NewResult("outputs", o, "one history = a Command (working directory + 0-12 output paths from a grammar with '.', '..', '//', trailing slashes, duplicates, aliases, nested and root-resolving paths, 4-8% invalid ones), an input root, and a produced tree (deep/wide/repeated identical subdirectories, symlinks, FIFOs, missing outputs, destroyed parents; 25% with faults: CAS write failures for files at any depth, Directory and Tree blobs, ReadDir / enter failures of directories at any depth, Readlink failures) run through the real NewOutputHierarchy, CreateParentDirectories and UploadOutputs on the virtual (and naive) build directory; non-trivial = accepted command with at least two declared paths resolving to the same location and at least one listed output directory whose Tree has children; distinct = hash of the op lines")
 	drv, err := hx.StartDriver("outputs")
 	if err != nil {
 		fmt.Fprintln(os.Stderr, "cannot start model driver:", err)
@@ -385,6 +406,12 @@ func main() {
 		}
 		if c.faults {
 			res.Count("history-with-fault-injection")
+			if c.enterFaults {
+				res.Count("history-with-enter-fault-mode")
+			}
+			if hasReadlinkFault(c.t1) {
+				res.Count("history-with-readlink-fault")
+			}
 		}
 		res.History(c.lines(), out.flags["alias-or-duplicate"] && out.flags["nested-tree"])
 		if out.monitor != "" || out.mismatch != "" {
